@@ -99,6 +99,13 @@ bool OSSLRSA::sign(PrivateKey* privateKey, const ByteString& dataToSign,
 
 		RSA* rsa = osslKey->getOSSLKey();
 
+		if (rsa == NULL)
+		{
+			ERROR_MSG("Could not get the OpenSSL private key");
+
+			return false;
+		}
+
 		if (!RSA_blinding_on(rsa, NULL))
 		{
 			ERROR_MSG("Failed to turn on blinding for OpenSSL RSA key");
@@ -174,6 +181,13 @@ bool OSSLRSA::sign(PrivateKey* privateKey, const ByteString& dataToSign,
 		OSSLRSAPrivateKey* osslKey = (OSSLRSAPrivateKey*) privateKey;
 
 		RSA* rsa = osslKey->getOSSLKey();
+
+		if (rsa == NULL)
+		{
+			ERROR_MSG("Could not get the OpenSSL private key");
+
+			return false;
+		}
 
 		if (dataToSign.size() != allowedLen)
 		{
@@ -253,6 +267,13 @@ bool OSSLRSA::sign(PrivateKey* privateKey, const ByteString& dataToSign,
 		signature.resize(osslKey->getN().size());
 
 		RSA* rsa = osslKey->getOSSLKey();
+
+		if (rsa == NULL)
+		{
+			ERROR_MSG("Could not get the OpenSSL private key");
+
+			return false;
+		}
 
 		if (!RSA_blinding_on(rsa, NULL))
 		{
@@ -612,6 +633,13 @@ bool OSSLRSA::signFinal(ByteString& signature)
 
 	RSA* rsa = pk->getOSSLKey();
 
+	if (rsa == NULL)
+	{
+		ERROR_MSG("Could not get the OpenSSL private key");
+
+		return false;
+	}
+
 	if (!RSA_blinding_on(rsa, NULL))
 	{
 		ERROR_MSG("Failed to turn blinding on for OpenSSL RSA key");
@@ -700,6 +728,13 @@ bool OSSLRSA::verify(PublicKey* publicKey, const ByteString& originalData,
 
 		RSA* rsa = osslKey->getOSSLKey();
 
+		if (rsa == NULL)
+		{
+			ERROR_MSG("Could not get the OpenSSL public key");
+
+			return false;
+		}
+
 		int retLen = RSA_public_decrypt(signature.size(), (unsigned char*) signature.const_byte_str(), &recoveredData[0], rsa, RSA_PKCS1_PADDING);
 
 		if (retLen == -1)
@@ -740,6 +775,13 @@ bool OSSLRSA::verify(PublicKey* publicKey, const ByteString& originalData,
 		recoveredData.resize(osslKey->getN().size());
 
 		RSA* rsa = osslKey->getOSSLKey();
+
+		if (rsa == NULL)
+		{
+			ERROR_MSG("Could not get the OpenSSL public key");
+
+			return false;
+		}
 
 		int retLen = RSA_public_decrypt(signature.size(), (unsigned char*) signature.const_byte_str(), &recoveredData[0], rsa, RSA_NO_PADDING);
 
@@ -819,6 +861,13 @@ bool OSSLRSA::verify(PublicKey* publicKey, const ByteString& originalData,
 		recoveredData.resize(osslKey->getN().size());
 
 		RSA* rsa = osslKey->getOSSLKey();
+
+		if (rsa == NULL)
+		{
+			ERROR_MSG("Could not get the OpenSSL public key");
+
+			return false;
+		}
 
 		int retLen = RSA_public_decrypt(signature.size(), (unsigned char*) signature.const_byte_str(), &recoveredData[0], rsa, RSA_NO_PADDING);
 
@@ -1161,6 +1210,13 @@ bool OSSLRSA::verifyFinal(const ByteString& signature)
 			break;
 	}
 
+	if (pk->getOSSLKey() == NULL)
+	{
+		ERROR_MSG("Could not get the OpenSSL public key");
+
+		return false;
+	}
+
 	// Perform the verify operation
 	bool rv;
 
@@ -1218,6 +1274,13 @@ bool OSSLRSA::encrypt(PublicKey* publicKey, const ByteString& data,
 
 	// Retrieve the OpenSSL key object
 	RSA* rsa = ((OSSLRSAPublicKey*) publicKey)->getOSSLKey();
+
+	if (rsa == NULL)
+	{
+		ERROR_MSG("Could not get the OpenSSL public key");
+
+		return false;
+	}
 
 	// Check the data and padding algorithm
 	int osslPadding = 0;
@@ -1294,6 +1357,13 @@ bool OSSLRSA::decrypt(PrivateKey* privateKey, const ByteString& encryptedData,
 
 	// Retrieve the OpenSSL key object
 	RSA* rsa = ((OSSLRSAPrivateKey*) privateKey)->getOSSLKey();
+
+	if (rsa == NULL)
+	{
+		ERROR_MSG("Could not get the OpenSSL private key");
+
+		return false;
+	}
 
 	// Check the input size
 	if (encryptedData.size() != (size_t) RSA_size(rsa))
